@@ -54,7 +54,7 @@ def fault_worlds(tier, seed):
     out = []
     for i in range(nworlds):
         rng = Rng(seed, "c13", i)
-        w = W.gen_small_world(rng)
+        w = W.gen_small_world(rng) if i % 2 else W.gen_fault_world(rng)
         w.threads = 1 if i % 4 else rng.choice([2, 3])
         w.tag = "fault-free"
         base = W.execute(w)
@@ -79,7 +79,7 @@ def crash_worlds(tier, seed):
     out = []
     for i in range(nworlds):
         rng = Rng(seed, "c11", i)
-        w = W.gen_small_world(rng)
+        w = W.gen_small_world(rng) if i % 2 else W.gen_fault_world(rng)
         w.threads = 1
         base = W.execute(w)
         _, m = count_ops(base)
